@@ -84,7 +84,7 @@ def sig_scenario(i, sig, option, phase, pty):
     return s, meta
 
 
-def size_scenario(i, sizes, mode, rnd, inkind="pty", nosignals=False):
+def size_scenario(i, sizes, mode, rnd, inkind="pty", nosignals=False, nosighandler=False):
     """sizes: the successive true sizes of the terminal; mode: idle (spaced), busy (all while the loop is held in Update),
     released (while an external command runs), command (WindowSize command after the last)"""
     w0, h0 = sizes[0]
@@ -121,9 +121,9 @@ def size_scenario(i, sizes, mode, rnd, inkind="pty", nosignals=False):
         script += [P.DO("send", msg=P.B("windowsize")), P.DO("sleep", us=30000), P.W("idle")]
     script += [P.DO("send", msg=P.U(7)), P.DO("sleep", us=30000), P.W("idle"), P.DO("quit"), P.W("returned")]
     text = "".join(chr(65 + (k % 26)) for k in range(150)) + "\n" + "\n".join("L%02d" % k for k in range(40))
-    s = P.scenario(i, script, opts={"fps": 120, "nosighandler": False, "nosignals": nosignals}, inp={"kind": inkind, "w": w0, "h": h0}, update=upd, isolate=True,
+    s = P.scenario(i, script, opts={"fps": 120, "nosighandler": nosighandler, "nosignals": nosignals}, inp={"kind": inkind, "w": w0, "h": h0}, update=upd, isolate=True,
                    watchdog_ms=4000, view={"text": text})
-    return s, {"kind": "size", "sizes": sizes, "mode": mode, "inkind": inkind, "nosignals": nosignals}
+    return s, {"kind": "size", "sizes": sizes, "mode": mode, "inkind": inkind, "nosignals": nosignals, "nosighandler": nosighandler}
 
 
 def gen(tier, rnd):
@@ -151,7 +151,8 @@ def gen(tier, rnd):
                     sizes.append(s)
             # the terminal is the output; the input is the same terminal, nothing, or a pipe
             # (WithoutSignals is about SIGINT/SIGTERM: window sizes are reported all the same)
-            add(size_scenario(0, sizes, mode, rnd, inkind=["pty", "ptyout", "ptyout+pipe", "pty"][len(scs) % 4], nosignals=(len(scs) % 3 == 1)))
+            add(size_scenario(0, sizes, mode, rnd, inkind=["pty", "ptyout", "ptyout+pipe", "pty"][len(scs) % 4], nosignals=(len(scs) % 3 == 1),
+                              nosighandler=(len(scs) % 3 == 2)))      # (WithoutSignalHandler is about SIGINT/SIGTERM too: resizes are still followed)
         a, b, c = [(rnd.randint(20, 120), rnd.randint(5, 40)) for _ in range(3)]
         if len({a, b, c}) == 3:
             add(size_scenario(0, [a, b, c, b], "revisit", rnd))
@@ -288,7 +289,7 @@ def replay(res, path):
         raise C.Fail("replay file has no scenario")
     C.build_harness()
     rnd = random.Random(1)
-    x = sig_scenario(0, m["sig"], m["option"], m["phase"], m["pty"]) if m["kind"] == "signal" else size_scenario(0, [tuple(s) for s in m["sizes"]], m["mode"], rnd, inkind=m.get("inkind", "pty"), nosignals=m.get("nosignals", False))
+    x = sig_scenario(0, m["sig"], m["option"], m["phase"], m["pty"]) if m["kind"] == "signal" else size_scenario(0, [tuple(s) for s in m["sizes"]], m["mode"], rnd, inkind=m.get("inkind", "pty"), nosignals=m.get("nosignals", False), nosighandler=m.get("nosighandler", False))
     results, _ = P.run_scenarios("C18_replay", [x[0]])
     print("problems:", judge_one(x[1], results[0]))
     res.oblige("replayed", True)
